@@ -416,7 +416,7 @@ fn run_c19(args: &Args) -> Report {
     let ty_ix = legend_index("type");
     let ns_ix = legend_index("namespace");
     while t0.elapsed().as_secs_f64() < args.budget_s {
-        let case_seed = r.next_u64();
+        let Some(case_seed) = args.next_case(&mut r) else { break };
         let mut cr = Rng::new(case_seed);
         let cfg = GenCfg { modules: cr.range(1, 3), max_items: cr.range(3, 7), max_depth: cr.range(1, 3), holes: false, non_core: cr.chance(1, 2), trivia: Trivia::Wild, non_ascii: true };
         let ws = gen::generate(&mut cr, &cfg);
